@@ -5,4 +5,5 @@ From Coq Require Import ExtrOcamlBasic.
 From VV Require Import Base.F64 Rng.RngDefs Rng.DistDefs Ga.GaDefs Ga.GaSeededDefs.
 Extraction "ga_model.ml" ga_create ga_mutation ga_crossover ga_cuts de_create de_crossover de_factor
   in_range_b in_box_b F64.of_bits F64.to_bits F64.is_nan
-  sga_create sga_mutation sga_crossover sde_create sde_crossover random_seed zero_state Z.to_N.
+  sga_create sga_mutation sga_crossover sde_create sde_crossover random_seed zero_state Z.to_N
+  ga_size ga_empty ga_get ga_set ga_inc_age ga_eqb de_size de_get de_set de_inc_age de_assign de_eqb.
